@@ -244,11 +244,11 @@ pub struct Exploration {
 }
 
 /// All schedules with at most `bound` preemptions. `check` judges each complete execution.
-pub fn explore(bodies: &[Body], bound: usize, stride: usize, horizon: usize, max_schedules: u64, slice: (usize, usize), before_run: &mut dyn FnMut(), check: &mut dyn FnMut(&RunResult, &[usize]) -> bool) -> Exploration {
+pub fn explore(bodies: &[Body], bound: usize, stride: usize, horizon: usize, max_schedules: u64, deadline: std::time::Instant, slice: (usize, usize), fix_first: bool, before_run: &mut dyn FnMut(), check: &mut dyn FnMut(&RunResult, &[usize]) -> bool) -> Exploration {
     let mut ex = Exploration { schedules: 0, points: 0, max_points: 0, with_preemption: 0, distinct_interleavings: Default::default(), replays_checked: 0, capped: false };
     let mut stack: Vec<Vec<usize>> = vec![vec![]];
     while let Some(prefix) = stack.pop() {
-        if ex.schedules >= max_schedules {
+        if ex.schedules >= max_schedules || std::time::Instant::now() >= deadline {
             ex.capped = true;
             break;
         }
@@ -285,7 +285,8 @@ pub fn explore(bodies: &[Body], bound: usize, stride: usize, horizon: usize, max
         for i in 0..r.trace.len() {
             // the first deviation from the default schedule is what work is split on
             let mine = !prefix.is_empty() || i % slice.1 == slice.0;
-            if i >= prefix.len() && mine {
+            // (which thread starts is part of the case when `fix_first`: half of all schedules hang off that one choice)
+            if i >= prefix.len() && mine && !(fix_first && i == 0) {
                 for alt in 1..r.trace[i].enabled {
                     let cost = cost_before + usize::from(r.trace[i].running_enabled);
                     if cost <= bound {
